@@ -184,6 +184,26 @@ func (c *FnCtx) typeFacts(v Term, t types.Type) string {
 	if t == nil {
 		return "true"
 	}
+	extra := "true"
+	if n, ok := t.(*types.Named); ok {
+		if ts := c.eng.Contracts.Types[qualName(n)]; ts != nil && len(ts.Invariants) > 0 {
+			if _, isStruct := n.Underlying().(*types.Struct); !isStruct {
+				var parts []string
+				for _, inv := range ts.Invariants {
+					env := &Env{c: c, st: NewState(), names: map[string]Val{"self": {T: v, GoT: t}}}
+					parts = append(parts, env.evalSpecBool(inv))
+				}
+				extra = and(parts...)
+			}
+		}
+	}
+	if extra != "true" {
+		return and(extra, c.typeFactsU(v, t))
+	}
+	return c.typeFactsU(v, t)
+}
+
+func (c *FnCtx) typeFactsU(v Term, t types.Type) string {
 	switch u := t.Underlying().(type) {
 	case *types.Basic:
 		lo, hi := intRange(u)
